@@ -52,8 +52,10 @@ def main():
         W = "/tmp/wt/r3-%s" % pid  # round 3
     if any(m in ("m9", "m10", "m11", "m11_alt") for m in ms):
         W = "/tmp/wt/r4-%s" % pid  # round 4
-    if any(m in ("m13", "m14", "m15", "m16") for m in ms):
+    if any(m in ("m13", "m14", "m15") for m in ms):
         W = "/tmp/wt/r5-%s" % pid  # round 5
+    if any(m in ("m16", "m17", "m18") for m in ms):
+        W = "/tmp/wt/r6-%s" % pid  # round 6
     take_slot()
     for m in ms:
         out = os.path.join(W, "_out", m)
